@@ -26,8 +26,12 @@ fn base_case(prop: &str, seed: u64) -> (Case, Rng) {
         setup: Vec::new(),
         ops: Vec::new(),
         note: String::new(),
+        http_arm: false,
     };
     draw_sim_part(&mut rng, &mut case);
+    // the HTTP arm: a share of the runs of the properties that are stated for both transports
+    let mut arm = Rng::substream(seed, "http-arm");
+    case.http_arm = matches!(prop, "C05" | "C06" | "C13" | "C15" | "C16" | "C10") && arm.chance(0.3);
     (case, rng)
 }
 
